@@ -175,7 +175,7 @@ def check_props_file(prop, scratch):
     return rc == 0, assum, out
 
 
-def run_shards(mod, terms, scratch, tag='cases'):
+def run_shards(mod, terms, scratch, tag='cases', preds=None):
     """Evaluate CORR / PROPCHK / PRE on every encoded case inside coqc (vm_compute).
     Returns (bad_corr, bad_prop, vacuous, errors) as lists of case indices."""
     files = []
@@ -192,9 +192,13 @@ def run_shards(mod, terms, scratch, tag='cases'):
             f.write(';\n'.join(chunk))
             f.write('\n].\n')
             pre = getattr(mod, 'PRE', None)
-            f.write('Eval vm_compute in (bad_cases %s cases, bad_cases %s cases, %s).\n' % (
-                mod.CORR, mod.PROPCHK,
-                ('bad_cases %s cases' % pre) if pre else '(@nil nat)'))
+            if preds is None:
+                f.write('Eval vm_compute in (bad_cases %s cases, bad_cases %s cases, %s).\n' % (
+                    mod.CORR, mod.PROPCHK,
+                    ('bad_cases %s cases' % pre) if pre else '(@nil nat)'))
+            else:
+                ps = (list(preds) + [preds[-1]] * 3)[:3]
+                f.write('Eval vm_compute in (bad_cases %s cases, bad_cases %s cases, bad_cases %s cases).\n' % tuple(ps))
         files.append((s, name, path))
     listing = os.path.join(scratch, tag + '_files.txt')
     with open(listing, 'w') as f:
@@ -247,8 +251,9 @@ def evaluate(mod, cases, scratch, tag):
     return dict(obs=obs, bad_corr=set(bad_corr), bad_prop=set(bad_prop), vac=set(vac), errors=errors)
 
 
-def shrink_failure(mod, case, scratch, which='bad_prop', rounds=6):
-    """Greedy shrinking: keep any smaller candidate that still fails."""
+def shrink_failure(mod, case, scratch, which='bad_prop', rounds=6, pred=None):
+    """Greedy shrinking: keep any smaller candidate that still fails (pred: the predicate that
+    must keep failing; default the strict property predicate)."""
     if not hasattr(mod, 'shrink'):
         return case
     cur = case
@@ -257,7 +262,14 @@ def shrink_failure(mod, case, scratch, which='bad_prop', rounds=6):
         if not cands:
             break
         cands = cands[:200]
-        ev = evaluate(mod, cands, scratch, 'shrink%d' % r)
+        if pred is None:
+            ev = evaluate(mod, cands, scratch, 'shrink%d' % r)
+        else:
+            obs = mod.run_impl(cands)
+            terms = [mod.encode(c, o) for c, o in zip(cands, obs)]
+            b1, _, _, errs = run_shards(mod, terms, scratch, 'shrink%d' % r, preds=[pred])
+            ev = dict(errors=errs, vac=set())
+            ev[which] = set(b1)
         if ev['errors']:
             break
         failing = sorted(i for i in ev[which] if i not in ev['vac'])
@@ -319,15 +331,49 @@ def run_property(mod, tier, seed, replay=None):
         if ev['errors']:
             proof_problems.append('correspondence shards failed to evaluate: %s' % (ev['errors'][0],))
 
+        def relaxed_attribution(cases, ev, failing):
+            """For the failing cases, evaluate the relaxed predicates (one per open finding, and all
+            together). Returns {case index: [finding ids]} for cases explained by open findings."""
+            relax = [(f, p) for f, p in getattr(mod, 'RELAX', []) if f in open_known]
+            if not relax or not failing:
+                return {}
+            sub = [failing[j] for j in range(len(failing))]
+            terms = [mod.encode(cases[i], ev['obs'][i]) for i in sub]
+            out = {}
+            allp = mod.RELAX_ALL if len(relax) == len(getattr(mod, 'RELAX', [])) else None
+            singles = {}
+            for f, p in relax:
+                b1, _, _, errs = run_shards(mod, terms, scratch, 'relax_' + p, preds=[p])
+                if errs:
+                    return {}
+                singles[f] = set(b1)
+            ball = None
+            if allp:
+                b1, _, _, errs = run_shards(mod, terms, scratch, 'relax_all', preds=[allp])
+                ball = set(b1) if not errs else None
+            for j, i in enumerate(sub):
+                fs = [f for f, _ in relax if j not in singles[f]]
+                if fs:
+                    out[i] = fs
+                elif ball is not None and j not in ball:
+                    out[i] = [f for f, _ in relax]
+            return out
+
         def handle_failures(cases, ev, origin):
-            for i in sorted(ev['bad_prop']):
-                if i in ev['vac']:
+            failing = [i for i in sorted(ev['bad_prop']) if i not in ev['vac']]
+            explained = relaxed_attribution(cases, ev, failing)
+            for i in failing:
+                if i in explained:
+                    for fid in explained[i]:
+                        known_hits.setdefault(fid, (cases[i], ev['obs'][i]))
                     continue
                 fid = mod.classify(cases[i], ev['obs'][i]) if hasattr(mod, 'classify') else None
                 if fid in open_known:
                     known_hits.setdefault(fid, (cases[i], ev['obs'][i]))
                     continue
-                small = cases[i] if replay else shrink_failure(mod, cases[i], scratch)
+                relaxed_pred = getattr(mod, 'RELAX_ALL', None) if any(
+                    f in open_known for f, _ in getattr(mod, 'RELAX', [])) else None
+                small = cases[i] if replay else shrink_failure(mod, cases[i], scratch, pred=relaxed_pred)
                 sobs = mod.run_impl([small])[0]
                 path = write_replay(prop, dict(
                     property=prop, kind='property-fails-on-implementation', origin=origin,
